@@ -6,13 +6,15 @@ Decided here (same obligations as in contracts/c13.py and c16.py, re-registered 
   * SLHA block readers never index a line beyond its fields, matrix/vector fills write in bounds only, unknown indices are ignored
   * numeric token conversion never lets a non-numeric / partially numeric / overflowing token through and throws only EReadError
   * no exception class raised inside main()'s try block escapes its handlers (no std::terminate on malformed input);
-    every failure exit is accompanied by a diagnostic (print_error: SPINFO[4] for the SLHA formats, stderr otherwise)
+    every failure exit is accompanied by a diagnostic (print_error: SPINFO[4] for the SLHA formats, stderr otherwise);
+    fill_block_entry (callee of print_error/print_warnings) writes exactly the named block's entry and leaves all other blocks unchanged
 NOT decided (stated in DESIGN.md): termination/time bounds, leaks, uninitialised reads, the SLHAea tokenizer on arbitrary bytes,
 signals -- these need execution-based techniques.
 """
 from gm2v.ob import REGISTRY, Obligation
 from contracts import c13 as _c13
 from contracts import c16 as _c16
+from contracts import c15 as _c15
 
 def _clone(prop_from, oid, new_oid):
     for o in REGISTRY.get(prop_from, []):
@@ -28,3 +30,5 @@ _clone('C13', 'C13.blocks.read_scale_and_match', 'C14.blocks.read_scale_and_matc
 _clone('C13', 'C13.blocks.every_block_in_order', 'C14.blocks.fills_in_bounds')
 _clone('C13', 'C13.program.no_uncaught_exception', 'C14.program.no_uncaught_exception')
 _clone('C16', 'C16.program.exit_status', 'C14.program.failure_has_diagnostic')
+# the SPINFO diagnostics of the SLHA output formats are written through fill_block_entry: its frame contract carries 'the diagnostic ends up in SPINFO and nowhere else'
+_clone('C15', 'C15.fill_block_entry', 'C14.callee.fill_block_entry')
